@@ -5,7 +5,7 @@ set -u
 patch_file=$(readlink -f "$1"); prop=$2; tier=${3:-quick}; shift 3 2>/dev/null || shift 2
 scratch=$(mktemp -d /tmp/vmut-XXXXXX)
 trap 'rm -rf "$scratch"' EXIT
-rsync -a --exclude .git --exclude temp --exclude '__pycache__' /repo/ "$scratch/"
+rsync -a --exclude .git --exclude temp --exclude "__pycache__" "${VERIF_BASE:-/repo}/" "$scratch/"
 ( cd "$scratch" && patch -p1 -s < "$patch_file" ) || { echo "PATCH-FAILED"; exit 3; }
 cd /verif
 VERIF_REPO="$scratch" /venv/bin/python -m vcheck.run "$prop" --tier "$tier" "$@"
